@@ -17,16 +17,6 @@ extern "C" int h_c01() {
 extern "C" int h_save() {
   ezc3d::c3d c; Built B;
   build_object(c, B);
-  // alignment filler: parameters whose descriptions have concrete lengths summing to cfg pad (steers the
-  // parameter-section length through all residues modulo the 512-byte block size)
-  int pad = __vp_cfg("pad");
-  for (int k = 0; pad >= 0 && k < 3; ++k) {
-    int len = pad > 255 ? 255 : pad;
-    std::string nm("PAD"); nm.push_back(char('A' + k));
-    Param p(nm, std::string(len, 'd')); p.set(std::vector<int>() = {k});
-    c.parameter("PADG", p);
-    pad -= len; if (pad == 0) pad = -1;
-  }
   dump_all(c, "pre", true);
   c.write("out.c3d");
   dump_all(c, "pre2", true);
